@@ -46,17 +46,26 @@ func openHist(filename string) (list []Item, err error) {
 		return list, fmt.Errorf("%w: %s", errOpenHistoryFile, err.Error())
 	}
 
-	scanner := bufio.NewScanner(file)
-	for scanner.Scan() {
-		var item Item
+	// Lines can be of any length, which a bufio.Scanner cannot handle:
+	// it stops reading at the first line exceeding its token size.
+	reader := bufio.NewReader(file)
 
-		err := json.Unmarshal(scanner.Bytes(), &item)
-		if err != nil || len(item.Block) == 0 {
-			continue
+	for {
+		data, readErr := reader.ReadBytes('\n')
+
+		if len(data) > 0 {
+			var item Item
+
+			err := json.Unmarshal(data, &item)
+			if err == nil && len(item.Block) > 0 {
+				item.Index = len(list)
+				list = append(list, item)
+			}
 		}
 
-		item.Index = len(list)
-		list = append(list, item)
+		if readErr != nil {
+			break
+		}
 	}
 
 	file.Close()
